@@ -21,6 +21,12 @@ def TA(vid, pid, old, new, f=C):
     VARIANTS.append((vid, pid, 'twin*', f, old, new, None))
 
 
+def TF(vid, pids, rewrite, f=C):
+    """twin given as a source -> source function (multi-site refactorings such as extract-method), registered for several properties"""
+    for pid in pids:
+        VARIANTS.append((f'{pid.lower()}-{vid}', pid, 'twin', f, rewrite, None, None))
+
+
 # ------------------------------------------------------------------------------------------------ C06
 SYNC_PAL = """                if do_fsync:
                     safe_flush_to_disk(
@@ -1152,3 +1158,51 @@ T('c07-twin-tell-returns-cached-pos', 'C07', "        return self._fhandle.tell(
 M('c07-tell-returns-pack-position', 'C07', "        return self._fhandle.tell() - self._offset\n\n    def _update_pos", "        return self._fhandle.tell()\n\n    def _update_pos", 'C07.R7', U)
 M('c01-add-object-stream-at-end', 'C01', "        stream = io.BytesIO(content)\n        return self.add_streamed_object(stream)", "        stream = io.BytesIO(content)\n        stream.seek(0, 2)\n        return self.add_streamed_object(stream)", 'C01.R2')
 M('c01-add-objects-to-pack-streams-consumed', 'C01', "        stream_list: list[StreamSeekBytesType] = [io.BytesIO(content) for content in content_list]\n", "        stream_list: list[StreamSeekBytesType] = [io.BytesIO(content) for content in content_list]\n        total = sum(len(stream.read()) for stream in stream_list)\n", 'C01.R2')
+
+
+# ------------------------------------------------------------------------------------------------ extract-method twins (multi-site, behaviour-preserving)
+def _xm_pack_prefilter(s):
+    """pack_all_loose: the look-up of already indexed keys (both strategies) moves into a private helper that returns the list."""
+    a = s.index("        existing_packed_hashkeys = []\n\n        if len(loose_objects) <= self._MAX_CHUNK_ITERATE_LENGTH:")
+    b = s.index("        # I remove them from the loose_objects list\n")
+    block = s[a:b]
+    helper = ("    def _packed_among(self, session, keys):\n        \"\"\"Return the keys among `keys` that are already in the index.\"\"\"\n"
+              + block.replace("loose_objects", "keys") + "        return existing_packed_hashkeys\n\n")
+    s = s[:a] + "        existing_packed_hashkeys = self._packed_among(session, loose_objects)\n\n" + s[b:]
+    i = s.index("    def pack_all_loose(")
+    return s[:i] + helper + s[i:]
+
+
+TF('xm-pack-prefilter', ['C02', 'C05', 'C06', 'C09', 'C16', 'C17', 'C18', 'C03', 'C13'], _xm_pack_prefilter)
+
+
+def _xm_writer_helpers(s):
+    """ObjectWriter.__exit__: the computation of the destination (mkdir of the shard + path) and the final directory fsync move into private helpers."""
+    a = s.index("                if self._loose_prefix_len:\n                    parent_folder = self._loose_folder / self._hashkey[: self._loose_prefix_len]")
+    b = s.index("                dest_parent_folder = dest_loose_object.parent")
+    block = s[a:b]
+    lines = block.split('\n')
+    helper_lines = [l[8:] if l.startswith('        ') else l for l in lines]  # dedent by two levels (16 -> 8 spaces)
+    helper = "    def _destination(self) -> Path:\n        \"\"\"Create the shard folder if needed and return the final path of the object.\"\"\"\n" + '\n'.join(helper_lines).rstrip() + "\n        return dest_loose_object\n\n"
+    s = s[:a] + "                dest_loose_object = self._destination()\n\n" + s[b:]
+    c = s.index("                if os.name == 'posix':\n                    dirfd = os.open(dest_parent_folder.parent, os.O_DIRECTORY)")
+    d = s.index("        finally:\n            # I set the stored flag")
+    helper2 = ("    @staticmethod\n    def _sync_folder(folder: Path) -> None:\n        \"\"\"fsync a directory (POSIX only).\"\"\"\n        if os.name == 'posix':\n"
+               "            dirfd = os.open(folder, os.O_DIRECTORY)\n            os.fsync(dirfd)\n            os.close(dirfd)\n\n")
+    s = s[:c] + "                self._sync_folder(dest_parent_folder.parent)\n" + s[d:]
+    i = s.index("    def _store_duplicate_copy(")
+    return s[:i] + helper + helper2 + s[i:]
+
+
+TF('xm-writer-helpers', ['C01', 'C04', 'C05', 'C06', 'C09', 'C17', 'C18'], _xm_writer_helpers, U)
+
+# ------------------------------------------------------------------------------------------------ round 4 batch 3
+M('c11-delete-resets-session', 'C11', "        session = self._get_operation_session()\n\n        # Operate in chunks, due to the SQLite limits", "        self._close_operation_session()\n        session = self._get_operation_session()\n\n        # Operate in chunks, due to the SQLite limits", 'C11.R1')
+M('c11-duplicates-listing-one-shot', 'C11', "        all_duplicates = os.listdir(self._get_duplicates_folder())\n\n        for hashkey in hashkeys:", "        all_duplicates = (name for name in os.listdir(self._get_duplicates_folder()) if not name.startswith('.'))\n\n        for hashkey in hashkeys:", 'C11.R1')
+M('c16-duplicates-listing-one-shot', 'C16', "        all_duplicates = os.listdir(self._get_duplicates_folder())\n\n        for hashkey in hashkeys:", "        all_duplicates = (name for name in os.listdir(self._get_duplicates_folder()) if not name.startswith('.'))\n\n        for hashkey in hashkeys:", 'C16.R7')
+M('c14-mapping-gains-untransferred-keys', 'C14', "        old_new_obj_hashkey_mapping = dict(zip(old_obj_hashkeys, new_obj_hashkeys))\n", "        old_new_obj_hashkey_mapping = dict(zip(old_obj_hashkeys, new_obj_hashkeys))\n        for key in hashkeys:\n            old_new_obj_hashkey_mapping.setdefault(key, key)\n", 'C14.R4')
+M('c14-funnel-permission-error-is-missing', 'C14', "            except FileNotFoundError:\n                loose_not_found.add(loose_hashkey)\n                continue", "            except (FileNotFoundError, PermissionError):\n                loose_not_found.add(loose_hashkey)\n                continue", 'C14+C17.R2p')
+M('c15-rsync-args-alias-shared-list', 'C15', "        all_args = [\n            self.rsync_exe,\n            '-azh',\n            '--no-whole-file',\n        ]", "        all_args = self._base = getattr(self, '_base', None) or [\n            self.rsync_exe,\n            '-azh',\n            '--no-whole-file',\n        ]", 'C15.R5', B)
+M('c15-local-time-folder-name', 'C15', "datetime.datetime.now(datetime.timezone.utc).strftime('%Y%m%d%H%M%S')", "datetime.datetime.now().strftime('%Y%m%d%H%M%S')", 'C15.R6', B)
+M('c15-day-first-folder-name', 'C15', "datetime.datetime.now(datetime.timezone.utc).strftime('%Y%m%d%H%M%S')", "datetime.datetime.now(datetime.timezone.utc).strftime('%d%m%Y%H%M%S')", 'C15.R6', B)
+T('c15-twin-utc-alias', 'C15', "datetime.datetime.now(datetime.timezone.utc).strftime('%Y%m%d%H%M%S')", "datetime.datetime.now(tz=datetime.timezone.utc).strftime('%Y%m%d%H%M%S')", B)
